@@ -60,7 +60,11 @@ func e3Explore(ctx *rt.Ctx, prop string, j e3Job, sc vsched.Scenario, outcome fu
 	for o := range st.Outcomes {
 		ctx.Cov.SetAdd("outcomes", o)
 	}
-	if !st.Complete {
+	ctx.Cov.Add("executions_diverged_from_replayed_prefix", int64(st.Diverged))
+	if st.SkippedSubtrees > 0 {
+		ctx.Cov.Cap(fmt.Sprintf("%s %s: %d schedule prefixes could not be reproduced (nondeterminism outside the scheduler, e.g. map iteration order)", j.Scenario, string(j.Params), st.SkippedSubtrees))
+	}
+	if !st.Complete && st.SkippedSubtrees == 0 {
 		ctx.Cov.Cap(fmt.Sprintf("%s %s: deadline hit at preemption bound %d after %d schedules", j.Scenario, string(j.Params), j.Bound, st.Schedules))
 	}
 	if len(st.Samples) > 0 {
